@@ -69,7 +69,7 @@ CHECKS = {
                 technique="TLA+ MigIssues over the four logged paths (CrossFormatTrace.tla) + model-checked writer column logic"),
     "C16": dict(level="model_checking", ref="§4 C16, §2.2",
                 text="The whole bundled database (797 classes, 3242 descriptors, 7231 defaults, 458 enums) is exported from the working tree and each entry is one TLC state whose coherence predicate (Reflection.tla) is an invariant - exhaustive. The library's own lookup functions (superclasses, superclasses_iter, has_superclass, find_default_property) are run for every class and compared with Reflection.tla's Chain / DefaultOf (ReflectionLookupTrace.tla). Closure under the codec: every class populated with its default set and every serializable descriptor are written/read by rbx_binary and judged by BinaryFormat.tla.",
-                note="The export walks the public rbx_reflection API; a regenerated database is checked as it is. Quick tier samples the closure cases, thorough runs all.",
+                note="The export walks the public rbx_reflection API; a regenerated database is checked as it is. Quick tier runs the default-populated classes that together cover every distinct (property, default value) pair of the database plus a rotating quarter of the rest, and a third of the descriptor cases; thorough runs all. A case the codec refuses outright is reported as a violation.",
                 technique="TLA+ coherence predicates over the database as a constant (TLC, exhaustive) + codec closure traces"),
     "C17": dict(level="exploration", ref="§4 C17, §2.7",
                 text="TextForms.tla (TLC, exhaustive at width 8) models UniqueId's Display/FromStr and the Faces/Axes bit-set <-> name-list bijection. TextTrace.tla judges recorded executions: every implemented Variant type through serde_json (str, slice, reader, Value), bincode and MessagePack must come back bit-identical; UniqueId/Ref text forms (incl. negative random) round-trip; every u16 BrickColor number, every Faces/Axes bit set (name lists as specified), Tags/MaterialColors blobs; every sample of rbx_dom_lua/src/allValues.json decodes to its stated type and re-encodes to the same JSON tree.",
